@@ -10,6 +10,11 @@
 (* all goroutines pass read-only at the same time - in percent - and the      *)
 (* capacities of those slices (every window length 1..cap is used, so the     *)
 (* spare capacity behind a window sweeps cap-1..0).                           *)
+(* Value classes every run draws from: the shapes of rendered messages        *)
+(* (LoggerCid!AllShapes: empty, interior / trailing newlines, CR, CRLF,       *)
+(* > 4 KiB, > 64 KiB - in println and printf form, the newline written in the *)
+(* format or produced by an operand) and the classes of ids application       *)
+(* objects expose through Cid() (names: TLC integers are 32-bit).             *)
 EXTENDS Naturals, FiniteSets, TLC, Json
 CONSTANTS Goroutines,   \* goroutines of a run
           Calls,        \* calls of a run, shared out evenly: ops = Calls \div n per goroutine
@@ -17,6 +22,9 @@ CONSTANTS Goroutines,   \* goroutines of a run
           Shared,       \* contexts made by the main goroutine before the others start
           MixNames,
           OpndNames,   \* operand mixes
+          Shapes,      \* message shapes of a run (all of them in every run), subset of LoggerCid!AllShapes
+          ObjIdClasses,\* classes of Cid() values of a run: "zero", "minus1", "negative", "minint32", "maxint32",
+                       \* "minint64", "maxint64", "small", "librange" (the ids the library hands out), "random"
           Caps,        \* capacities of the caller-owned operand slices of a run (all of them in every run)
           Closers      \* is the writer handed to Switch also an io.Closer? {TRUE, FALSE}: both for every
                        \* descriptor; {}: one of the two, alternating over goroutine counts and mixes
@@ -42,5 +50,6 @@ GenInit == /\ n \in Goroutines /\ ops \in {c \div n : c \in Calls} /\ shared \in
            /\ closer \in (IF Closers # {} THEN Closers ELSE {(Pos(n, Goroutines) + MixPos(mix.name)) % 2 = 1})
 GenNext == UNCHANGED vars
 Emit == PrintT(<<"CASE", ToJson([n |-> n, ops |-> ops, mix |-> mix, shared |-> shared, closer |-> closer, rep |-> rep,
-                               opnd |-> opnd, caps |-> Caps])>>)
+                               opnd |-> opnd, caps |-> Caps,
+                               shapes |-> Shapes, objids |-> ObjIdClasses])>>)
 =============================================================================
